@@ -70,10 +70,19 @@ func find(out []byte, i, end int, pat string) int {
 	return -1
 }
 
+// commentText: n bytes of text; comments are byte strings, so from five bytes on the text also
+// holds a two-byte UTF-8 letter, a byte that is not valid UTF-8 and a character whose code point,
+// cut to one byte, would be a line feed (U+010A).
 func commentText(n int) string {
 	s := make([]byte, n)
 	for i := range s {
 		s[i] = byte('a' + i%26)
+	}
+	if n >= 5 {
+		s[1], s[2], s[3] = 0xC3, 0xA9, 0xFF
+	}
+	if n >= 8 {
+		s[5], s[6] = 0xC4, 0x8A
 	}
 	return string(s)
 }
